@@ -385,6 +385,11 @@ func (fs *fakeServer) serveTLS(tc *tls.Conn) {
 		fs.mu.Unlock()
 		verb := strings.ToUpper(l)
 		switch {
+		case strings.HasPrefix(verb, "EHLO") && fs.mode == "tlshelo":
+			// inside TLS this server only speaks HELO
+			io.WriteString(tc, "502 5.5.1 EHLO not implemented\r\n")
+		case strings.HasPrefix(verb, "HELO"):
+			io.WriteString(tc, "250 fake\r\n")
 		case strings.HasPrefix(verb, "EHLO"):
 			io.WriteString(tc, "250-fake\r\n250-XTLSONLY\r\n250-AUTH PLAIN\r\n250 8BITMIME\r\n")
 		case strings.HasPrefix(verb, "AUTH"):
@@ -500,13 +505,25 @@ func c10ClientRun(c c10ClientCase) Verdict {
 			return failf("plaintext-leak", "server %q, entry %s: the client wrote %q outside TLS; plaintext octets received: %s", c.Server, c.Entry, s, q(plain))
 		}
 	}
-	success := c.Server == "ok" || c.Server == "injected"
+	success := c.Server == "ok" || c.Server == "injected" || c.Server == "tlshelo"
 	if !success {
 		if callErr == nil {
 			return failf("no-error", "server %q: STARTTLS did not succeed but the client call returned nil", c.Server)
 		}
 		if len(cmds) != 0 {
 			return failf("tls-after-failure", "commands inside TLS although the upgrade must have failed: %q", cmds)
+		}
+		return v
+	}
+	if c.Server == "tlshelo" && c.Entry == "sendmail-auth" {
+		// the TLS side offers no AUTH: SendMail has to give up, and must not have sent credentials
+		if callErr == nil {
+			return failf("stale-capabilities", "SendMail with credentials succeeded although the TLS side offers no AUTH; commands inside TLS: %q", cmds)
+		}
+		for _, l := range cmds {
+			if strings.HasPrefix(strings.ToUpper(l), "AUTH") {
+				return failf("stale-capabilities", "credentials sent inside TLS to a server that offered AUTH only in plaintext: %q", l)
+			}
 		}
 		return v
 	}
@@ -518,6 +535,19 @@ func c10ClientRun(c c10ClientCase) Verdict {
 		return failf("no-ehlo-after-upgrade", "first command inside TLS is %q, want a new EHLO", cmds)
 	}
 	joined := strings.Join(cmds, "\n")
+	if c.Server == "tlshelo" {
+		// inside TLS nothing was offered (HELO): nothing learned in plaintext may be used
+		for _, l := range cmds {
+			u := strings.ToUpper(l)
+			if strings.HasPrefix(u, "AUTH") || (strings.HasPrefix(u, "MAIL FROM") && strings.Contains(u, "BODY=")) {
+				return failf("stale-capabilities", "inside TLS the server only accepted HELO (no extensions), but the client sent %q - a capability it only learned in plaintext", l)
+			}
+		}
+		if (c.Entry == "newclient" || c.Entry == "dial") && (extPlain || extTLS) {
+			return failf("stale-capabilities", "after a HELO fallback inside TLS Extension() still reports capabilities (XPLAIN=%v)", extPlain)
+		}
+		return v
+	}
 	if !strings.Contains(joined, "MAIL FROM:<sender@example.org>") || !strings.Contains(joined, "RCPT TO:<rcpt@example.org>") {
 		return failf("control", "positive control failed: envelope not seen inside TLS: %q", cmds)
 	}
@@ -552,7 +582,7 @@ func TestC10(t *testing.T) {
 	}
 	// the client half is a small finite product: enumerate it completely
 	idx := 0
-	for _, srv := range []string{"nostarttls", "refuse454", "refuse502", "garbage", "injected", "ok"} {
+	for _, srv := range []string{"nostarttls", "refuse454", "refuse502", "garbage", "injected", "ok", "tlshelo"} {
 		for _, entry := range []string{"newclient", "dial", "sendmail", "sendmail-auth"} {
 			idx++
 			if !mine(idx) {
